@@ -23,7 +23,8 @@ inline std::vector<std::uint64_t> alphabet_EXP(unsigned lane_bits) {
 template<class V>
 struct PerType {
     typedef typename V::scalar S;
-    static void run() {
+    static void run() { run_mode(0); }
+    static void run_mode(int m) {
         const bool f32 = sizeof(S) == 4;
         std::vector<S> K = alphabet_KF<S>();
         std::vector<S> L = as_scalars<S>(f32 ? alphabet_F32L() : alphabet_F64L());
@@ -31,11 +32,18 @@ struct PerType {
         if (f32) { std::vector<std::uint64_t> u = alphabet_F32L(), h = alphabet_F32H(); u.insert(u.end(), h.begin(), h.end()); sort_unique(u); U = as_scalars<S>(u); }
         else U = as_scalars<S>(alphabet_F64S(opt().thorough));
         DomainOf<S, DomList1<S> > lat = erase<S>(DomList1<S>(U, f32 ? "F32L u F32H" : "F64S"));
-        unary(lat, K, std::integral_constant<bool, sizeof(S) == 4>());
+        // directed rounding modes: none of these functions rounds (fdim, ldexp and scalbn round once, as <cmath> does under the same mode);
+        // an implementation built on mode-sensitive arithmetic or on instructions with a static rounding override differs (seed C12-d)
+        if (m == 0) unary(lat, K, std::integral_constant<bool, sizeof(S) == 4>()); else unary_ops(lat, K);
         DomainOf<S, DomProd2<S> > d2 = erase<S>(DomProd2<S>(L, L, f32 ? "F32L x F32L" : "F64L x F64L"));
-        explore<V, fmax>(d2, &K);
-        explore<V, fmin>(d2, &K);
+        if (m == 0) {
+            explore<V, fmax>(d2, &K);
+            explore<V, fmin>(d2, &K);
+        }
         explore<V, fdim>(d2, &K);
+        // ldexp/scalbn are demanded 'correctly rounded with overflow to infinity', which names the default mode (under a directed mode <cmath> overflows
+        // to the largest finite number); fmax/fmin select an operand and carry a recorded finding: all four are explored under FE_TONEAREST only
+        if (m != 0) return;
         // a different exponent in every lane: the exponent index varies fastest
         std::vector<S> E = as_scalars<S>(alphabet_EXP(8 * sizeof(S)));
         DomainOf<S, DomProd2<S> > de = erase<S>(DomProd2<S>(L, E, f32 ? "F32L x EXP" : "F64L x EXP").swapped());
@@ -59,9 +67,25 @@ struct PerType {
 
 }  // namespace vx
 
+namespace vx {
+template<class V> struct Mode1 { static void run() { PerType<V>::run_mode(1); } };
+template<class V> struct Mode2 { static void run() { PerType<V>::run_mode(2); } };
+template<class V> struct Mode3 { static void run() { PerType<V>::run_mode(3); } };
+}  // namespace vx
+
 int main(int argc, char** argv) {
     if (int rc = vx::parse_args(argc, argv)) return rc;
-    vx::for_each_float_type<vx::PerType>();
-    vx::for_each_float_scalar<vx::PerType>();
+    using namespace vx;
+    for_each_float_type<PerType>();
+    for_each_float_scalar<PerType>();
+    for (int m = 1; m < 4; ++m) {
+        std::fesetround(round_modes()[m].mode);
+        name_suffix() = round_modes()[m].suffix;
+        if (m == 1) { for_each_float_type<Mode1>(); for_each_float_scalar<Mode1>(); }
+        if (m == 2) { for_each_float_type<Mode2>(); for_each_float_scalar<Mode2>(); }
+        if (m == 3) { for_each_float_type<Mode3>(); for_each_float_scalar<Mode3>(); }
+    }
+    std::fesetround(FE_TONEAREST);
+    name_suffix() = "";
     return vx::write_results("t_fmanip", vx::part_name());
 }
